@@ -602,8 +602,8 @@ theorem retransmit_inv (mid : Nat) (h : Inv m0 b c) : Inv m0 b (c.retransmit mid
     · simp only
       exact sendPdu_inv _ _ _ (inv_upd _ (by simp) (by simp) (by simp) (inv_emit_inert _ rfl h))
     · simp only
-      apply inv_upd _ (by simp) (by simp) (by simp)
-      exact inv_ite (fun _ => inv_emit_inert _ rfl (ackFlush_inv h)) fun _ => ackFlush_inv h
+      have h0 := inv_upd (fun s => { s with inflight := s.inflight.filter (·.sn ≠ q.sn) }) (by simp) (by simp) (by simp) h
+      exact inv_ite (fun _ => inv_emit_inert _ rfl (ackFlush_inv h0)) fun _ => ackFlush_inv h0
 
 end
 end Coap.TlsGate
